@@ -1,4 +1,5 @@
 import LanceModel.C41.SpillRun
+import LanceModel.C41.ChunkRun
 /-!
 C41 — Replay spills and stream chunking deliver every batch exactly once.
 
@@ -110,6 +111,47 @@ theorem memory_or_disk (limit : Nat) (sched : List Step) :
     refine ⟨h1, h2, ?_⟩
     rw [h3]
 
+
+/-- **reader_not_blocked** (no lost wake-up, step level): whenever no call on the sender is in flight, the count
+    published on the watch channel is the number of batches written, so a reader that has not yet been given every
+    written batch — or any reader of a finished spill — is not left waiting on the channel by its next poll, and (no
+    error having been sent) is not failed either: the poll hands out the next batch, the end of the stream, or starts
+    the file read that will. -/
+theorem reader_not_blocked (limit : Nat) (sched : List Step) (i : Nat) :
+    let s := run (init limit) sched
+    s.st.idle = true → s.st ≠ .errored → s.dropped = false →
+    (s.st.closed = false → s.status.written = s.log.length) ∧
+    ((s.rd i).pc = .idle → s.status.error = false →
+      ((s.rd i).read < s.status.written ∨ s.status.finished = true) →
+      (rpoll s i).2 ≠ .wait ∧ ∀ k, (rpoll s i).2 ≠ .error k) := by
+  intro s hidle hne hdrop
+  have hg := (inv_run (inv_init limit) sched).g
+  constructor
+  · intro hcl
+    cases hst : s.st with
+    | buffering bs seen total =>
+      obtain ⟨h1, _, h3, _⟩ := hg.sBuf bs seen total hst
+      rw [Status.written, h3, h1]
+    | spilling n =>
+      obtain ⟨_, h2, h3, _⟩ := hg.sSpill n hst
+      rw [Status.written, h3]; exact h2
+    | _ => simp [hst, SState.idle, SState.closed] at hidle hcl
+  · intro hpc herr hcond
+    have hc : (s.status.finished || decide ((s.rd i).read < s.status.written)) = true := by
+      rcases hcond with h | h
+      · simp [h]
+      · simp [h]
+    unfold rpoll rpollR
+    simp only [hpc, herr, Bool.false_or, gt_iff_lt, hc, if_true, Bool.false_eq_true, if_false]
+    constructor
+    · split
+      · split <;> simp
+      · split <;> simp
+    · intro k
+      split
+      · split <;> simp
+      · split <;> simp
+
 /-! ### non-vacuity: concrete schedules in which readers do end, in memory and through the file -/
 
 private def b0 : Batch := ⟨0, 3, 1, 12⟩
@@ -147,5 +189,79 @@ example : ((run (init 1000) [.wstart b0, .rpoll 0, .wstart b1, .fstart, .rpoll 0
 
 /-- a reader in the `reading` state exists (hypothesis of `no_premature_eof`) -/
 example : ((run (init 0) [.wstart b0, .wio, .wio, .wpub, .rpoll 0, .rio 0]).rd 0).pc = .reading := by decide
+
+/-! ## Chunking part
+
+A batch is the list of its rows, an input stream the list of its batches (over an arbitrary row type `α`).
+`requested size` `n > 0`; with `n = 0` the real functions degenerate (`chunk_stream` yields nothing,
+`StrictBatchSizeStream` never ends, `break_stream` divides by zero), see `chunk_size_zero_counterexample`. -/
+
+namespace Chunk
+
+/-- the chunking part of the property for a given requested size -/
+def ChunkExact (n : Nat) : Prop :=
+  ∀ (α : Type) (input : List (List α)),
+    ((chunkStream n input).map List.flatten).flatten = input.flatten ∧
+    ExactButLast n ((chunkStream n input).map List.flatten)
+
+/-- **chunk_exact**: `chunk_stream(stream, n)`: the concatenation of all output slices is the input, every chunk
+    but the last has exactly `n` rows and the last between 1 and `n` — for every list of batch lengths (empty batches
+    included) and every row type. -/
+theorem chunk_exact (n : Nat) (hn : 0 < n) : ChunkExact n := by
+  intro α input
+  have h := unfoldChunks_spec hn (input.flatten.length + 1) (⟨input, [], 0⟩ : St α) (Or.inl rfl)
+    (by simp [pending])
+  exact ⟨by simpa [chunkStream, pending] using h.1, h.2.1⟩
+
+/-- **chunk_shape**: the same fact in index-free form, plus: no slice inside a chunk is empty. -/
+theorem chunk_shape (n : Nat) (hn : 0 < n) {α : Type} (input : List (List α)) :
+    (∀ c ∈ ((chunkStream n input).map List.flatten).dropLast, c.length = n) ∧
+    (∀ c ∈ (chunkStream n input).map List.flatten, 0 < c.length ∧ c.length ≤ n) ∧
+    (∀ c ∈ chunkStream n input, ∀ x ∈ c, x ≠ []) := by
+  have h := unfoldChunks_spec hn (input.flatten.length + 1) (⟨input, [], 0⟩ : St α) (Or.inl rfl)
+    (by simp [pending])
+  refine ⟨ebl_dropLast h.2.1, fun c hc => ⟨ebl_pos hn h.2.1 c hc, ebl_le h.2.1 c hc⟩, ?_⟩
+  intro c hc x hx hnil
+  have := h.2.2 c hc x hx
+  rw [hnil] at this; exact Nat.lt_irrefl 0 this
+
+/-- **chunk_concat_exact**: `chunk_concat_stream(stream, n)` yields batches of exactly `n` rows (except the last)
+    whose concatenation is the input. -/
+theorem chunk_concat_exact (n : Nat) (hn : 0 < n) {α : Type} (input : List (List α)) :
+    (chunkConcatStream n input).flatten = input.flatten ∧ ExactButLast n (chunkConcatStream n input) :=
+  chunk_exact n hn α input
+
+/-- **strict_exact**: `StrictBatchSizeStream::new(stream, n)`: concatenation = input, every batch but the last has
+    exactly `n` rows, the last between 1 and `n`. -/
+theorem strict_exact (n : Nat) (hn : 0 < n) {α : Type} (input : List (List α)) :
+    (strictStream n input).flatten = input.flatten ∧ ExactButLast n (strictStream n input) := by
+  have h := strictUnfold_spec hn (input.flatten.length + 1) input none (by simp [spending])
+  exact ⟨by simpa [strictStream, spending] using h.1, h.2⟩
+
+/-- **break_exact**: `break_stream(stream, max)`: concatenation = input; no output batch is empty or crosses a
+    multiple of `max` rows (`Windows`); every output batch is a piece of one input batch and the pieces of an input
+    batch concatenate to it (nothing is combined). -/
+theorem break_exact (max : Nat) (hm : 0 < max) {α : Type} (input : List (List α)) :
+    (breakStream max 0 input).flatten = input.flatten ∧ Windows max 0 (breakStream max 0 input) ∧
+    ∃ groups : List (List (List α)), breakStream max 0 input = groups.flatten ∧ groups.map List.flatten = input := by
+  have h := breakStream_spec hm input 0 hm
+  exact ⟨h.1, h.2, breakGroups max 0 input, breakGroups_spec hm input 0 hm⟩
+
+/-- the statement without the side condition `0 < n` does not hold: size 0 makes `chunk_stream` drop everything -/
+theorem chunk_size_zero_counterexample : ¬ ∀ n, ChunkExact n := by
+  intro h
+  have := (h 0 Nat [[1]]).1
+  revert this
+  decide
+
+/-! non-vacuity -/
+example : chunkStream 3 [[1, 2], [], [3, 4, 5, 6], [7]] = [[[1, 2], [3]], [[4, 5, 6]], [[7]]] := by decide
+example : chunkConcatStream 3 [[1, 2], [], [3, 4, 5, 6], [7]] = [[1, 2, 3], [4, 5, 6], [7]] := by decide
+example : strictStream 3 [[1, 2], [], [3, 4, 5, 6], [7]] = [[1, 2, 3], [4, 5, 6], [7]] := by decide
+example : breakStream 4 0 [[1, 2, 3], [4, 5, 6, 7, 8], [9]] = [[1, 2, 3], [4], [5, 6, 7, 8], [9]] := by decide
+example : ExactButLast 3 [[1, 2, 3], [4, 5, 6], [7]] := by simp [ExactButLast]
+example : ¬ ExactButLast 3 [[1, 2], [4, 5, 6]] := by simp [ExactButLast]
+
+end Chunk
 
 end LanceModel.C41
